@@ -88,7 +88,10 @@ def read_commit_builder(g, E, do, length):
          "crypto": {"k": "ok", "t": hexof(16, rnd=r)}},
         {"op": "destroy", "uid": K},                                       # refused: K is Active
         {"op": "activate", "uid": K},                                      # refused: already Active
-        {"op": "modifyAttribute", "uid": K, "attr": _A("Name", "name", "zz", 7, t=1), "current": None, "new": None},
+        ({"op": "modifyAttribute", "uid": K, "attr": _A("Name", "name", "zz", 7, t=1), "current": None, "new": None}
+         if ver < 20 else
+         {"op": "modifyAttribute", "uid": K, "attr": None, "current": _A("Name", "name", "nosuch", None, t=1),
+          "new": _A("Name", "name", "zz", None, t=1)}),
     ]
     if sec is not None:
         reads.append({"op": "get", "uid": sec, "format": None, "compression": False, "wrap": wrap(1),
@@ -106,6 +109,16 @@ def read_commit_builder(g, E, do, length):
                  {"op": "setAttribute", "uid": Z[2], "attr": _A("Sensitive", "bool", True)}),
         lambda: {"op": "revoke", "uid": Z[0], "code": 1},
     ]
+    # the other order too: [an attribute operation that commits on K; a wrapped / plain Get of K] - the Get works on an
+    # object whose collections were touched and whose columns were expired by the commit in the same session
+    for k in range(3):
+        nm = "k-c%d-%d" % (k, r.randrange(10 ** 6))
+        first = ({"op": "modifyAttribute", "uid": K, "attr": _A("Name", "name", nm, k % 2, t=1), "current": None, "new": None}
+                 if ver < 20 else
+                 {"op": "setAttribute", "uid": K, "attr": _A("Sensitive", "bool", True)})
+        second = {"op": "get", "uid": K, "format": None, "compression": False, "wrap": wrap(1) if k != 1 else None,
+                  "crypto": {"k": "ok", "t": hexof(24, rnd=r)}}
+        do(_req(g, [first, second, {"op": "getAttributes", "uid": K, "names": []}], ver, bopt=1))
     r.shuffle(reads)
     ci = 0
     for rd in reads[:max(4, min(length, len(reads)))]:
